@@ -28,7 +28,7 @@ func smoke(a Args) {
 			t0 := time.Now()
 			for i := 0; i < 20; i++ {
 				rec := rig.Do(conn, rig.Forms[i%len(rig.Forms)], codec, rig.Method(codec, i%4),
-					svc.Spec{Run: 1, Conn: 1, Caller: 1, Counter: uint64(i), DelayUs: 1000, ReplyLen: uint32(i * 1000), Fill: i * 3000}, 100000)
+					svc.Spec{Run: 1, Conn: 1, Caller: 1, Counter: uint64(i), DelayUs: 1000, ReplyLen: uint32(i * 1000), Fill: i * 3000}, 100000, nil)
 				if rec.Err != nil || rig.CheckReply(rec) != "" {
 					bad++
 					mon.Note("smoke", fmt.Sprintf("%s %s: err=%v %s", cfg, rec.ID, rec.Err, rig.CheckReply(rec)))
